@@ -73,7 +73,7 @@ class H2Server:
         self.goaway_processed_seq = None
         self.client_goaway = None
         self.max_open_seen = 0
-        self.gated = False  # set by concurrent drivers: frames are emitted by scheduler actions
+        self.gated = bool(getattr(world, "h2_gated", False))  # concurrent drivers: frames are emitted by scheduler actions
         self.log: list[tuple] = []
         self.total_sent_data = 0
         self.client_wu: list[tuple] = []
